@@ -164,6 +164,7 @@ def run(ctx):
     rep.rule("C21.R1b", "proceeding with an unconverged step only when continue_with_unconverged is true", 8)
     rep.rule("C21.R2", "truncated returns warn with the time and carry no failed-step data", 4)
     rep.rule("C21.R3", "every force family is used or guarded by each solver", 40)
+    _done.clear()
     eng = Engine(ctx)
     nflags = 0
     for key in sorted(eng.funcs):
